@@ -155,6 +155,28 @@ def gen_goal(src, vars_, preds, cfg):
     return ('call', gen_callable(src, vars_, preds, cfg))
 
 
+def gen_template(src, vars_, goal, cfg):
+    """findall template: mostly built from the goal's own variables, wrapped in 0-3 levels of structure"""
+    gv = term_vars(goal, [])
+    pool = gv or vars_
+    if not pool or src.n(6) == 5:
+        return gen_term(src, vars_, cfg)
+    t = src.pick(pool)
+    for _ in range(src.n(4)):
+        k = src.n(5)
+        if k == 0:
+            t = ('f', 'f', (t,))
+        elif k == 1:
+            t = ('f', 'g', (('a', src.pick(cfg.atoms)), t))
+        elif k == 2:
+            t = mklist([('a', src.pick(cfg.atoms)), t])
+        elif k == 3:
+            t = ('f', 'g', (t, src.pick(pool)))
+        else:
+            t = mklist([t], NIL)
+    return t
+
+
 def gen_meta(src, vars_, preds, cfg, depth=0):
     """call/N, once/1, findall/3 with goals in every shape (inline compound, inline atom, nested meta)"""
     k = src.n(6)
@@ -173,7 +195,7 @@ def gen_meta(src, vars_, preds, cfg, depth=0):
     if k == 2:
         return ('f', 'once', (inner,))
     if k in (3, 4):
-        tmpl = gen_term(src, vars_, cfg)
+        tmpl = gen_template(src, vars_, inner, cfg)
         bag = src.pick(vars_) if vars_ and src.n(4) != 3 else gen_term(src, vars_, cfg)
         return ('f', 'findall', (tmpl, inner, bag))
     return ('f', 'call', (inner,))
